@@ -40,12 +40,69 @@ UNITS = [
     U("U-tag-fragment", ["VueJsxTransformVisitor::is_component"], ["tag_fragment_not_component"], ["C02", "C03", "C10"], domain="`Fragment` x symbolic history", mem_gb=8, assumes=[A_DROP, A_FMT]),
     U("U-tag-frame", ["VueJsxTransformVisitor::is_component"], ["tagframe_alias_text", "tagframe_foo", "tagframe_div"], ["C10"], domain="2-safety: two visitor states that differ in the Fragment import", mem_gb=8, assumes=[A_DROP, A_FMT]),
     U("U-tag-nojsx", ["VueJsxTransformVisitor::transform_tag"], ["tag_namespaced_no_jsx_leak"], ["C07"], domain="namespaced tag", mem_gb=8, assumes=[A_DROP, A_FMT]),
-    U("U-attrs-plain", ["VueJsxTransformVisitor::transform_attrs", "util::is_on", "util::dedupe_props", "directive::is_directive"], PLAIN,
+    U("U-attrs-plain-whole", ["VueJsxTransformVisitor::transform_attrs", "util::is_on", "util::dedupe_props", "directive::is_directive"], PLAIN,
       ["C13", "C01"], completeness="bounded", domain="one attribute: 11 names x {dynamic, value-less, string} x symbolic {host kind, constness, 4 options}; attribute list length 1",
-      mem_gb=10, timeout=1500, assumes=[A_DROP, A_CLONE, A_PD, A_TT, A_CONST]),
-    U("U-attrs-ns", ["VueJsxTransformVisitor::transform_attrs"], ["attr_namespaced_dyn"], ["C01"], completeness="bounded", domain="one namespaced attribute a:b, real format!", mem_gb=12, timeout=1800, tier="thorough", assumes=[A_DROP, A_CLONE, A_PD, A_TT, A_CONST]),
-    U("U-attrs-darm", ["VueJsxTransformVisitor::transform_attrs"], DARM, ["C04", "C05", "C13", "C03"], completeness="bounded",
-      domain="one directive attribute: 9 parse results (normal, html, text, 4 v-model argument forms, 2 v-slots) x symbolic {host kind, options}", mem_gb=10, timeout=1500, assumes=[A_DROP, A_CLONE, A_PD, A_FMT]),
+      mem_gb=22, timeout=1800, tier="thorough", assumes=[A_DROP, A_CLONE, A_PD, A_TT, A_CONST, A_FMT]),
+        U("U-attrs-darm", ["VueJsxTransformVisitor::transform_attrs"], DARM, ["C04", "C05", "C13", "C03"], completeness="bounded",
+      domain="one directive attribute: 9 parse results (normal, html, text, 4 v-model argument forms, 2 v-slots) x symbolic {host kind, options}", mem_gb=22, timeout=1800, tier="thorough", assumes=[A_DROP, A_CLONE, A_PD, A_FMT]),
+]
+
+DIRSPELL = ["dirspell_kebab", "dirspell_camel", "dirspell_camel_inner_upper", "dirspell_one_modifier", "dirspell_two_modifiers", "dirspell_ns_arg",
+            "dirspell_ns_arg_modifier", "dirspell_camel_ns", "dirspell_show", "dirspell_kebab_inner"]
+DIRVAL = ["dirval_v", "dirval_v_arg", "dirval_v_mods", "dirval_v_arg_mods", "dirval_empty_array", "dirval_hole", "dirval_absent", "dirval_string", "dirval_nonident_modifier"]
+VHTML = ["vhtml_absent", "vhtml_str", "vhtml_expr", "vhtml_array", "vhtml_empty", "vhtml_element", "vhtml_fragment",
+         "vtext_absent", "vtext_str", "vtext_expr", "vtext_array", "vtext_empty", "vtext_element", "vtext_fragment"]
+VMODEL = ["vmodel_plain", "vmodel_suffix_modifier", "vmodel_ns_arg", "vmodel_ns_arg_modifier", "vmodel_array_strarg", "vmodel_array_computed", "vmodel_array_mods", "vmodel_array_arg_mods", "vmodel_camel"]
+RESOLVE = ["resolve_show", "resolve_custom", "resolve_model_input_notype", "resolve_model_input_checkbox", "resolve_model_input_radio", "resolve_model_input_text",
+           "resolve_model_input_dynamic", "resolve_model_input_type_after_other", "resolve_model_select", "resolve_model_select_with_type", "resolve_model_textarea", "resolve_model_other_element"]
+PRAGMAC = ["pragmac_plain", "pragmac_jsdoc", "pragmac_custom", "pragmac_unrelated", "pragmac_importsource", "pragmac_frag", "pragmac_runtime", "pragmac_noname", "pragmac_noname_star", "pragmac_trailing_words", "pragmac_multiline"]
+IMPORTS = ["import_vue_named", "import_vue_named_second", "import_vue_aliased", "import_vue_renamed_other", "import_other_module", "import_vue_namespace", "import_vue_default", "import_vue_without"]
+INJECT = ["inject_no_options", "inject_other_key", "inject_same_ident_key", "inject_same_string_key", "inject_nonliteral_options", "inject_spread_args", "inject_literal_with_spread", "inject_shorthand_key"]
+RTB = ["rtb_date", "rtb_map", "rtb_set", "rtb_promise", "rtb_regexp", "rtb_error", "rtb_array", "rtb_function", "rtb_weakmap", "rtb_weakset", "rtb_object", "rtb_uppercase",
+       "rtb_lowercase", "rtb_capitalize", "rtb_uncapitalize", "rtb_parameters", "rtb_ctor_parameters", "rtb_record", "rtb_partial", "rtb_readonly"]
+D12 = {"memcmp.0": 33}
+UNITS += [
+    U("U-dirspell", ["directive::parse_directive", "directive::transform_modifiers"], DIRSPELL, ["C04", "C08"], completeness="bounded",
+      domain="10 concrete directive spellings (kebab, camel, inner capitals, 1-2 `_mod` suffixes, namespaced arg) x symbolic host kind", mem_gb=8, timeout=900, assumes=[A_DROP, A_CLONE]),
+    U("U-dirval", ["directive::parse_directive", "directive::parse_modifiers", "directive::transform_modifiers"], DIRVAL, ["C04", "C07", "C08"], completeness="bounded",
+      domain="9 value forms ([v], [v,arg], [v,[mods]], [v,arg,[mods]], [], hole, absent, string, non-identifier modifier)", mem_gb=8, timeout=900, assumes=[A_DROP, A_CLONE]),
+    U("U-vhtml", ["directive::parse_v_html_directive", "directive::parse_v_text_directive"], VHTML, ["C04", "C08"],
+      domain="every JSXAttrValue kind (absent, string, expression, array form, empty container, element, fragment) x {v-html, v-text}: complete over value kinds", mem_gb=8, timeout=900, assumes=[A_DROP, A_CLONE]),
+    U("U-vmodel-parse", ["directive::parse_v_model_directive"], VMODEL, ["C05"], completeness="bounded",
+      domain="9 v-model spellings/value forms x symbolic host kind", mem_gb=8, timeout=900, assumes=[A_DROP, A_CLONE]),
+    U("U-resolvedir", ["VueJsxTransformVisitor::resolve_directive"], RESOLVE, ["C04", "C05"],
+      domain="directive {show, model, other} x host {input, select, textarea, other} x type attribute {absent, checkbox, radio, other string, dynamic, after another attribute} x symbolic options", mem_gb=8, timeout=900, assumes=[A_DROP, A_CLONE, A_FMT]),
+    U("U-pragma-prec", ["VueJsxTransformVisitor::get_pragma"], ["pragma_none", "pragma_option", "pragma_comment", "pragma_comment_over_option"], ["C15"],
+      domain="{comment pragma, option pragma} present/absent x symbolic options: complete", mem_gb=8, timeout=900, assumes=[A_DROP, A_FMT]),
+    U("U-pragma-comment", ["VueJsxTransformVisitor::search_jsx_pragma"], PRAGMAC, ["C15", "C07"], completeness="bounded",
+      domain="11 concrete comment texts (plain, JSDoc star, multi-line, other @jsx* tags, no name, trailing words)", mem_gb=10, timeout=1200, assumes=[A_DROP]),
+    U("U-emptytext", ["VueJsxTransformVisitor::transform_jsx_text"], ["jsx_text_empty_iff_dropped"], ["C02"], domain="symbolic emptiness of the cleaned text: complete", mem_gb=8, assumes=[A_DROP, A_FMT, A_TT]),
+    U("U-isdc", ["VueJsxTransformVisitor::is_define_component_call", "VueJsxTransformVisitor::visit_mut_import_decl"], ["define_component_identification"] + IMPORTS, ["C20"],
+      domain="5 callee shapes x recorded/not; 8 import declaration shapes", mem_gb=8, assumes=[A_DROP, A_CLONE]),
+    U("U-inject", ["inject_define_component_option"], INJECT, ["C20"], completeness="bounded", domain="8 option-argument shapes", mem_gb=8, assumes=[A_DROP, A_CLONE]),
+    U("U-rttable", ["resolve_type::infer_runtime_type"], ["rt_keywords", "rt_literals", "rt_structural"] + RTB, ["C17"], completeness="bounded",
+      domain="all keyword kinds of the table, literal kinds, 20 built-in names, fn/array/tuple/paren/union/NonNullable one level", mem_gb=8, timeout=900, assumes=[A_DROP, A_CLONE]),
+    U("U-rt-bigint", ["resolve_type::infer_runtime_type"], ["rt_bigint_literal"], ["C17"], domain="bigint literal type", mem_gb=8, assumes=[A_DROP]),
+]
+
+STEP_PLAIN = ["step_ref", "step_class", "step_style", "step_key", "step_on", "step_nativeon", "step_onclick_camel", "step_onclick_lower", "step_onupdate_mv", "step_listener", "step_other",
+              "step_other_valueless", "step_other_string", "step_class_string", "step_listener_valueless", "step_ref_string"]
+A_EXTRACT = "A-GLUE: the arm bodies / assembly / finalisation of transform_attrs are verified as extracted regions (tools/extract.py, verbatim); that the fold applies the arms to every attribute in order from the declared initial state is checked syntactically by the extractor and, bounded, by the whole-function units of the thorough tier"
+UNITS += [
+    U("U-step-plain", ["VueJsxTransformVisitor::transform_attrs[plain arm]", "util::is_on"], STEP_PLAIN, ["C13", "C01"],
+      domain="plain-attribute arm from an ARBITRARY analysis state (5 symbolic booleans): 10 name classes x {dynamic, value-less, string} x symbolic {host kind, constness, options}; complete over the shared contract's abstract domain",
+      mem_gb=6, timeout=600, unwindset={"memcmp.0": 21}, assumes=[A_DROP, A_CLONE, A_TT, A_CONST, A_FMT, A_EXTRACT]),
+    U("U-step-plain-frame", ["VueJsxTransformVisitor::transform_attrs[plain arm]"], ["step_other_fullstate", "step_nativeon_fullstate"], ["C13", "C01"], completeness="bounded",
+      domain="as U-step-plain with non-empty earlier props / merge arguments / dynamic props (frame: they are kept in place)", mem_gb=12, timeout=900, unwindset={"memcmp.0": 21}, tier="thorough",
+      assumes=[A_DROP, A_CLONE, A_TT, A_CONST, A_FMT, A_EXTRACT]),
+    U("U-step-spread", ["VueJsxTransformVisitor::transform_attrs[spread arm]", "util::dedupe_props"], ["step_spread_expr", "step_spread_object"], ["C13", "C01"], completeness="bounded",
+      domain="spread arm: {expression, object literal} x symbolic state and options; earlier props list of length <= 1", mem_gb=16, timeout=1200, unwindset={"memcmp.0": 12}, assumes=[A_DROP, A_CLONE, A_FMT, A_EXTRACT]),
+    U("U-flagfinal", ["VueJsxTransformVisitor::transform_attrs[finalisation]"], ["step_finalize"], ["C13"],
+      domain="all 2^7 combinations of the analysis booleans: complete", mem_gb=6, timeout=600, assumes=[A_DROP, A_EXTRACT]),
+    U("U-assemble", ["VueJsxTransformVisitor::transform_attrs[props assembly]", "util::dedupe_props"], ["asm_none", "asm_one_prop", "asm_two_props", "asm_lone_spread", "asm_one_merge", "asm_two_merge", "asm_merge_and_props", "asm_two_merge_and_props"], ["C01"],
+      completeness="bounded", domain="props list of length 0..2 or a lone spread x merge-argument list of length 0..2 x symbolic options", mem_gb=8, timeout=900, unwindset={"memcmp.0": 12}, assumes=[A_DROP, A_CLONE, A_FMT, A_EXTRACT]),
+    U("L-flags", ["lemma over the contracts of U-step-plain / U-step-spread / U-step-dir / U-flagfinal"], ["flags_lemma"], ["C13"], backend="verus",
+      domain="attribute sequences of ANY length (induction): unbounded", assumes=["the abstract step of the directive arms (K_DIR_*, K_VMODEL_*) in the lemma is the contract checked by U-step-dir"]),
 ]
 
 CANARY = dict(harness="canary_must_fail", timeout=300, mem_gb=4)
